@@ -51,9 +51,23 @@ func addSQLFeatures(g *gen) {
 		} else {
 			g.c.AddFeat("sql:link-table")
 		}
-		// foreign key to an earlier struct
-		if i > 0 && g.chance(0.6) {
-			target := g.structs[g.rng.Intn(i)]
+		// the same jsonb column (name and type) in several tables
+		if g.chance(0.3) {
+			if !g.sharedDeclared {
+				g.sharedDeclared = true
+				g.lists = append(g.lists, &Decl{Kind: "named", Name: "SharedParams", Under: Map(Basic("string"), Basic("bool"))})
+			}
+			s.Fields = append(s.Fields, Field{Name: "Params", T: Ref("", "SharedParams")})
+			g.c.AddFeat("sql:shared-json-column")
+		}
+		// foreign key to an earlier struct, or to the table itself (a tree)
+		if g.chance(0.6) {
+			target := s
+			if i > 0 && g.chance(0.8) {
+				target = g.structs[g.rng.Intn(i)]
+			} else {
+				g.c.AddFeat("sql:self-reference")
+			}
 			switch g.rng.Intn(3) {
 			case 0:
 				s.Fields = append(s.Fields, Field{Name: g.uniq("Fk"), T: Basic("int64"), Tag: fmt.Sprintf(`gomacro-sql-foreign:"%s"`, target.Name)})
@@ -77,7 +91,12 @@ func addSQLFeatures(g *gen) {
 				}
 			}
 			if exp != "" {
-				s.Fields = append(s.Fields, Field{Name: "guard" + fmt.Sprint(i), T: Ref("", e.Name), Tag: fmt.Sprintf(`gomacro-sql-guard:"#[%s.%s]"`, e.Name, exp)})
+				// a guard sits anywhere among the fields, also before the id
+				gf := Field{Name: "guard" + fmt.Sprint(i), T: Ref("", e.Name), Tag: fmt.Sprintf(`gomacro-sql-guard:"#[%s.%s]"`, e.Name, exp)}
+				pos := g.rng.Intn(len(s.Fields) + 1)
+				fs := append([]Field{}, s.Fields[:pos]...)
+				fs = append(fs, gf)
+				s.Fields = append(fs, s.Fields[pos:]...)
 				g.c.AddFeat("sql:guard")
 			}
 		}
